@@ -31,6 +31,10 @@ POOL = pd.DataFrame({
     "a": [1.0, 2.0, 3.5, 5.0, 8.0],
     "b": [2.0, 0.5, -1.0, 4.0, 1.5],
     "A": pd.Series(["x", "y", "x", "z", "y"], dtype=object),
+    # names that need back-quotes; `a b` and `a+b` sanitize to the same python alias, which is also the name of the column a_b
+    "a b": [3.0, 1.0, 4.0, 1.5, 9.0],
+    "a+b": [10.0, 20.0, 30.0, 20.0, 50.0],
+    "a_b": [5.0, 6.0, 7.0, 9.0, 2.0],
 })
 
 FORMULAS = [
@@ -48,6 +52,8 @@ FORMULAS = [
     # literal scalings must survive the replay through the recorded structure
     "2.5:a", "3:center(a)", "2:A", "0 + 2.5:a:A",
     # the same stateful call more than once inside one factor / across factors
+    # back-quoted names whose python aliases collide with each other / with another column: each keeps its own recorded state
+    "center(`a b`) + center(`a+b`)", "center(`a b`) + center(a_b)", "scale(`a+b`):center(`a b`)", "{center(`a b`) - center(`a+b`)}",
     "{center(a) * center(a)}", "I(scale(a) + scale(a))", "{center(a) * center(b)} + center(a)", "{bs(a, df=4)[1] + bs(a, df=4)[2]}",
 ]
 
